@@ -466,7 +466,9 @@ def c01(tier, seed):
               "tasklets created via create/create_to/create_on_xstream/create_many that yield, create, join their children, "
               "wait on eventuals set by siblings and end by return/ABT_self_exit/ABT_thread_exit; non-trivial = the program "
               "ran >= 50 units incl. every unit kind; distinct = distinct (variant, delay profile, environment, "
-              "configuration signature)")
+              "configuration signature); plus 'stackrace' cases: 4-24 stacked schedulers (automatic or freed by the user) "
+              "added to a host pool served by 1-3 other streams with a delay injected between the push of the scheduler's "
+              "ULT and the return of ABT_pool_add_sched (ASan/TSan/mon)")
     c.assumptions = ["programs follow the schedulability rules of DESIGN.md §6 H-c (otherwise loss would be the program's fault)",
                      "a lost named unit shows as a reproduced hang of its joiner (watchdog), a lost unnamed unit as "
                      "'lost-unit' after ABT_finalize"]
@@ -484,13 +486,21 @@ def c01(tier, seed):
     for i, s in enumerate(seeds(seed, 1 if q else 6, salt=2)):
         c.add(Run("h_units", "tsan", ["--seed", s, "--mode", "forest", "--programs", 4, "--max-units", 120,
                                       "--delay", profiles[(i + 2) % 4], "--watchdog", 60], weight=6, tag="tsan%d" % i))
-    c.nontrivial = lambda r: (r.result or {}).get("counters", {}).get("units", 0) >= 50
-    c.required_points = ["POP_BECAME_EMPTY", "POP_LOCK_CONTENDED", "EXIT_JUMP_TO_JOINER", "EXIT_PUSH_JOINER",
+    # stacked schedulers that start, run and finish on another stream while ABT_pool_add_sched is still returning
+    srp = [hammer("CREATE_AFTER_PUSH"), "uniform", hammer("CREATE_AFTER_PUSH", "PUSH_BEFORE_LOCK", "SCHED_STOP_AFTER_SIZE")]
+    for i, s in enumerate(seeds(seed, 2 if q else 12, salt=3)):
+        c.add(Run("h_units", ("asan", "mon", "tsan")[i % 3] if not q else ("asan", "tsan")[i % 2],
+                  ["--seed", s, "--mode", "stackrace", "--scenarios", 10 if q else 40, "--delay", srp[i % 3],
+                   "--watchdog", 90], weight=4, tag="stackrace%d" % i))
+    c.nontrivial = lambda r: ((r.result or {}).get("counters", {}).get("units", 0) >= 50 or
+                              (r.result or {}).get("counters", {}).get("stacked_schedulers_added", 0) >= 20)
+    c.required_points = ["CREATE_AFTER_PUSH", "POP_BECAME_EMPTY", "POP_LOCK_CONTENDED", "EXIT_JUMP_TO_JOINER", "EXIT_PUSH_JOINER",
                          "EXIT_FUTEX_JOINER", "JOIN_YIELD_LOOP", "JOIN_SUSPEND"]
     c.required_counters = ["named_ults", "unnamed_ults", "named_tasklets", "unnamed_tasklets", "via_create_to",
                            "via_create_on_xstream", "via_create_many", "via_external_thread", "exit_by_self_exit",
                            "exit_by_thread_exit", "eventual_waits", "stacked_schedulers", "programs_with_user_scheduler",
-                           "units_run_by_user_scheduler", "units_checked_at_xstream_join", "primary_scheduler_replaced"]
+                           "units_run_by_user_scheduler", "units_checked_at_xstream_join", "primary_scheduler_replaced",
+                           "stacked_schedulers_freed_by_user", "stacked_schedulers_automatic"]
     return c
 
 
